@@ -2,7 +2,7 @@
     Vocabulary: Diff/Model.v (the transcription of diff/*.go and function.go:diffEnv) and Diff/Spec.v. *)
 From Dawn Require Import Diff.Model Diff.Spec Diff.Proofs_Basic Diff.Proofs_Record Diff.Proofs_Search
      Diff.Proofs_Seq Diff.Proofs_Rounds Diff.Proofs_Value Diff.Proofs_Reason
-     Diff.SpecCost Diff.Proofs_Total Diff.Proofs_Min.
+     Diff.SpecCost Diff.SpecGraph Diff.Proofs_Total Diff.Proofs_Min Diff.Proofs_Opt.
 Open Scope Z_scope.
 
 (** The diff of two values is empty exactly when they are equal (EqualDepth at the same depth says true). *)
@@ -209,6 +209,24 @@ Theorem common_prefix_kept : forall (A : Type) (eqv : A -> A -> option bool) rou
 Proof. exact common_prefix_kept_lemma. Qed.
 Print Assumptions common_prefix_kept.
 
+(** MINIMALITY, the lower-bound half (the furthest-point theorem of the O(NP) search).  [reach x y d]
+    (Diff/SpecGraph.v) says that the point (x, y) of the edit graph can be reached from the origin by a path
+    with d deletions (steps along the shorter sequence [a]); such a path to the far corner has d + delta
+    insertions, delta = |b| - |a|.  When the search reaches the far corner (the table is not exhausted) it has
+    run pf + 1 iterations of its [for p] loop -- visible in the number (pf+1)(delta+pf+1) of snakes it
+    recorded -- and NO edit path to the corner has fewer than pf deletions: no script is cheaper than
+    delta + 2 pf.  (The upper-bound half, that the script recorded from the route chain costs exactly
+    delta + 2 pf, is not proved.) *)
+Theorem search_lower_bound : forall (A : Type) (eqv : A -> A -> option bool) route_size a b size st,
+  zlen A a <= zlen A b ->
+  search A eqv route_size a b size = Ok st ->
+  zlen A b <= fp st (zlen A b - zlen A a + (zlen A a + 1)) ->
+  exists pf, 0 <= pf /\
+    Z.of_nat (length (routes st)) = (pf + 1) * (zlen A b - zlen A a + pf + 1) /\
+    forall d, reach A eqv a b (zlen A a) (zlen A b) d -> pf <= d.
+Proof. intros A eqv rs a b size st H. exact (search_lower_bound_lemma A eqv rs a b size H st). Qed.
+Print Assumptions search_lower_bound.
+
 (** The hypotheses are satisfiable. *)
 Example ex_hypotheses :
   let a := VTuple [VInt 1; VInt 2; VInt 3] in
@@ -245,3 +263,16 @@ Example ex_suffix_not_trailing :
   diff_slice Z (fun x y => Some (x =? y)) 2000000 [9;3] [3;3] =
   Ok [mkEdit KDelete [9] []; mkEdit KCommon [3] [3]; mkEdit KAdd [] [3]].
 Proof. vm_compute. reflexivity. Qed.
+
+(** the hypotheses of search_lower_bound on an instance: the corner is reached with 8 = (1+1)(2+1+1) snakes,
+    so pf = 1 and every script deletes at least one element; and an edit path exists *)
+Example ex_lower_bound :
+  (exists st, search Z (fun x y => Some (x =? y)) 2000000 [1;2;7;4] [1;2;5;4;7;8] 13 = Ok st /\
+              length (routes st) = 8%nat /\ 6 <= fp st (2 + 5)) /\
+  reach Z (fun x y => Some (x =? y)) [1] [1;2] 1 2 0.
+Proof.
+  split.
+  - eexists. split; [vm_compute; reflexivity|]. split; [vm_compute; reflexivity | vm_compute; discriminate].
+  - apply (r_ins _ _ _ _ 1 1 0); [|reflexivity].
+    apply (r_diag _ _ _ _ 0 0 0 1 1); [apply r_origin | reflexivity | reflexivity | reflexivity].
+Qed.
